@@ -308,7 +308,18 @@ func (g *Engine) registerIntrinsics() {
 	b["verifBytesEq"] = func(e *Exec, fn *ssa.Function, a []Value) Value {
 		return e.bytesEq(a[0], a[1])
 	}
-	b["verifAnd"] = func(e *Exec, fn *ssa.Function, a []Value) Value { return e.tb.BAnd(a[0].(*Term), a[1].(*Term)) }
+	// verifCloneBytes: an independent copy with the same content (a snapshot of the array term,
+	// so that two executions started from "the same bytes" build syntactically equal terms)
+	b["verifCloneBytes"] = func(e *Exec, fn *ssa.Function, a []Value) Value {
+		s := a[0].(Slice)
+		if s.base.obj == nil {
+			return s
+		}
+		ba := e.load(s.base).(BArr)
+		o := e.newObj(BArr{ba.t, -1}, nil, "clone")
+		return Slice{base: Ptr{obj: o}, off: s.off, len: s.len, cap: s.len, max: s.max}
+	}
+	b["verifAnd"] =func(e *Exec, fn *ssa.Function, a []Value) Value { return e.tb.BAnd(a[0].(*Term), a[1].(*Term)) }
 	b["verifOr"] = func(e *Exec, fn *ssa.Function, a []Value) Value { return e.tb.BOr(a[0].(*Term), a[1].(*Term)) }
 	b["verifNot"] = func(e *Exec, fn *ssa.Function, a []Value) Value { return e.tb.BNot(a[0].(*Term)) }
 	b["verifImplies"] = func(e *Exec, fn *ssa.Function, a []Value) Value {
@@ -628,6 +639,13 @@ func (g *Engine) registerIntrinsics() {
 		p := a[0].(Ptr)
 		e.atomicAccess[p.obj] = true
 		v := e.load(p.ext(PE{i: 1})).(*Term)
+		if e.h.Params["concurrentabort"] == 1 && !e.inInit {
+			// concurrent mode: another goroutine may have stored true since the last look;
+			// the flag is monotone (nothing in the package stores false)
+			seen := e.tb.Ite(e.fresh("abort.set.concurrently", SortBool), e.tb.BVu(1, 32), v)
+			e.store(p.ext(PE{i: 1}), seen)
+			v = seen
+		}
 		return e.tb.BNot(e.tb.Eq(v, e.tb.BVu(0, 32)))
 	}
 	I["(*sync/atomic.Bool).Store"] = func(e *Exec, fn *ssa.Function, a []Value) Value {
@@ -657,16 +675,23 @@ func (g *Engine) registerIntrinsics() {
 			"bls12381G2Add", "bls12381G2Mul", "bls12381G2MultiExp", "bls12381MapG1", "bls12381MapG2", "bls12381Pairing"} {
 			ty := ty
 			I["(*"+pkg+"."+ty+").Run"] = func(e *Exec, fn *ssa.Function, a []Value) Value {
-				s := e.freshStr("precompile."+ty+".out", 8)
-				out := e.newBytes(s.arr, s.off, s.len, 8, "precompile-out")
-				if e.branch(e.fresh("precompile."+ty+".ok", SortBool)) {
+				// uninterpreted functions of the input: equal inputs give equal answers (also across
+				// the two sides of a relational harness)
+				tb := e.tb
+				arr, off, n, max, _ := e.bytesOf(a[len(a)-1])
+				h := e.keccakTerm(arr, off, n, max)
+				word := tb.UF("pre_out_"+ty, 64, h)
+				ln := tb.Bin(OpURem, tb.ZExt(tb.UF("pre_len_"+ty, 8, h), 64), tb.BVu(9, 64))
+				out := e.newBytes(e.bytesFromWord(word, 8), tb.BVu(0, 64), ln, 8, "precompile-out")
+				if e.branch(tb.UF("pre_ok_"+ty, SortBool, h)) {
 					return Tuple{out, Iface{}}
 				}
-				return Tuple{Slice{off: e.tb.BVu(0, 64), len: e.tb.BVu(0, 64), cap: e.tb.BVu(0, 64)}, e.errorsNew(e.strConst("precompile failed"))}
+				return Tuple{Slice{off: tb.BVu(0, 64), len: tb.BVu(0, 64), cap: tb.BVu(0, 64)}, e.errorsNew(e.strConst("precompile failed"))}
 			}
 			if ty == "bigModExp" || ty == "blake2F" {
 				I["(*"+pkg+"."+ty+").RequiredGas"] = func(e *Exec, fn *ssa.Function, a []Value) Value {
-					return e.fresh("precompile."+ty+".gas", 64)
+					arr, off, n, max, _ := e.bytesOf(a[len(a)-1])
+					return e.tb.UF("pre_gas_"+ty, 64, e.keccakTerm(arr, off, n, max))
 				}
 			}
 		}
